@@ -180,11 +180,15 @@ func vdbScanAgreesWithReads(c *Ctx, tag string, v *vView, p []byte, entries [][2
 		}
 	}
 	pre := v.absPrefix()
+	cands := make([]string, 0, len(universe))
 	for u := range universe {
-		if !bytes.HasPrefix([]byte(u), pre) {
-			continue
+		if bytes.HasPrefix([]byte(u), pre) {
+			cands = append(cands, u[len(pre):])
 		}
-		k := []byte(u)[len(pre):]
+	}
+	sort.Strings(cands) // deterministic report
+	for _, u := range cands {
+		k := []byte(u)
 		if !bytes.HasPrefix(k, p) || listed[string(k)] {
 			continue
 		}
